@@ -174,6 +174,9 @@ class Scheduler:
         self.finished = False
         self.hot = 0
         self.fatal: tuple[str, str] | None = None
+        # Ctrl-C delivery points: CPython raises KeyboardInterrupt only where the eval breaker is checked
+        # (RESUME, calls, backward jumps); optional callable(simthread, code, offset, kind), may raise
+        self.intr_hook = None
 
     # ----------------------------------------------------------------------------- registration
     def adopt_current_thread(self, name: str = "main") -> SimThread:
@@ -967,6 +970,39 @@ def _line_cb(code, line):
         s.on_line(code, line)
 
 
+def _intr(code, offset, kind):
+    s = ACTIVE
+    if s is None or s.finished:
+        return
+    hook = s.intr_hook
+    if hook is None:
+        return
+    cur = s.current
+    if cur is None or cur.thread is None or REAL["get_ident"]() != cur.thread.ident:
+        return
+    hook(cur, code, offset, kind)
+
+
+def _start_cb(code, offset):
+    _intr(code, offset, "resume")
+
+
+def _jump_cb(code, offset, dest):
+    if dest < offset:
+        _intr(code, offset, "jump_backward")
+
+
+def _call_cb(code, offset, func, arg0):
+    _intr(code, offset, "call")
+
+
+def line_of(code, offset) -> int | None:
+    for start, end, line in code.co_lines():
+        if start <= offset < end:
+            return line
+    return None
+
+
 def enable_line_events(module_names: list[str]) -> int:
     """Enable LINE events on every code object of the given (already imported) modules."""
     global _MON_READY, _MON_CODES
@@ -976,12 +1012,17 @@ def enable_line_events(module_names: list[str]) -> int:
     if not _MON_READY:
         mon.use_tool_id(_MON_TOOL, "schemathesis-sim")
         mon.register_callback(_MON_TOOL, mon.events.LINE, _line_cb)
+        mon.register_callback(_MON_TOOL, mon.events.PY_START, _start_cb)
+        mon.register_callback(_MON_TOOL, mon.events.PY_RESUME, _start_cb)
+        # JUMP events are NOT used: CPython 3.12 attributes an exception raised from a JUMP callback to the wrong
+        # exception-table position (it skips the innermost enclosing handler), which a real signal would not do
+        mon.register_callback(_MON_TOOL, mon.events.CALL, _call_cb)
         _MON_READY = True
     n = 0
     for name in module_names:
         mod = importlib.import_module(name)
         for code in _module_code_objects(mod):
-            mon.set_local_events(_MON_TOOL, code, mon.events.LINE)
+            mon.set_local_events(_MON_TOOL, code, mon.events.LINE | mon.events.PY_START | mon.events.PY_RESUME | mon.events.CALL)
             n += 1
     _MON_CODES += n
     return n
